@@ -208,7 +208,7 @@ def _axes(tier):
     if tier == "quick":
         return {
             "single": {"sets": SETS, "forms": FORMS, "truths": QUICK_TRUTHS, "dtypes": ("float64",)},
-            "staged": {"same": [(s, f) for s in ("f0", "classic") for f in ("4x6x3", "24x3")], "moving": [("f0", "4x6x3"), ("classic", "24x3")], "truths": QUICK_TRUTHS},
+            "staged": {"same": [("f0", "24x3"), ("classic", "4x6x3")], "moving": [("f0", "4x6x3"), ("classic", "24x3")], "truths": QUICK_TRUTHS},
             "correction": {"refs": ("f0", "default"), "truths": CC_TRUTHS_QUICK, "dtypes": ("float64",)},
         }
     return {
